@@ -1,7 +1,7 @@
 //! Harnesses compiled *inside* opaque-ke (hook: `#[cfg(any(kani, opaque_ke_verif))] #[path = ...] pub mod verif_kani;`
 //! in src/lib.rs). Under Kani every `pub fn` produced by `harnesses!` is a `#[kani::proof]`; natively
 //! (`--cfg opaque_ke_verif`) the same functions are ordinary functions driven by the replay shim in `vk`.
-#![allow(dead_code, unsafe_code, missing_docs, unused_imports, static_mut_refs, clippy::all)]
+#![allow(dead_code, unsafe_code, missing_docs, unused_imports, static_mut_refs, unexpected_cfgs, clippy::all)]
 
 include!("../common/macros.rs");
 
@@ -10,6 +10,7 @@ pub mod vk;
 #[path = "../common/model.rs"]
 pub mod model;
 pub mod spec_prims;
+pub mod spec;
 
 /// Declares harnesses and the table used by the native replay.
 macro_rules! harnesses {
@@ -32,8 +33,15 @@ pub mod h_decoders;
 
 /// all harnesses reachable from this module (the child modules in opaque.rs / envelope.rs /
 /// tripledh.rs register theirs through `child_tables`)
-pub fn tables() -> [&'static [(&'static str, fn())]; 3] {
-    [h_lemmas::TABLE, h_c03::TABLE, h_decoders::TABLE]
+pub fn tables() -> [&'static [(&'static str, fn())]; 6] {
+    [
+        h_lemmas::TABLE,
+        h_c03::TABLE,
+        h_decoders::TABLE,
+        crate::opaque::verif_kani_opaque::TABLE,
+        crate::envelope::verif_kani_envelope::TABLE,
+        crate::key_exchange::tripledh::verif_kani_tripledh::TABLE,
+    ]
 }
 
 #[cfg(not(kani))]
